@@ -162,9 +162,10 @@ def run(ctx):
     cov = dict(info)
     cov["trusted_base"] = vlib.STD_TRUSTED + [
         "the ACL authorizer is an arbitrary function in the theorems; on cases it is the real acl.Authorizer tabulated on every name occurring in the request",
-        "net/url: the model re-implements unescape, escape(encodePath), validEncoded, EscapedPath and setPath; the byte classes (shouldEscape for paths, hex digits) are tabulated from net/url on every run and compared in Coq; scheme/host/userinfo/query/fragment handling of url.Parse and URL.String is summarised by the fields Scheme, Host and one 'plain' bit read from the real *url.URL",
+        "net/url: the model re-implements unescape, escape(encodePath), validEncoded, EscapedPath and setPath; the byte classes (shouldEscape for paths, hex digits, validEncoded) are tabulated from net/url on every run and compared in Coq; scheme/host/userinfo/query/fragment handling of url.Parse and URL.String is summarised by the fields Scheme, Host and one 'plain' bit read from the real *url.URL",
         "regexp: the four anchored identity patterns are modelled as shapes of the '/'-split path",
         "modelled, not verified: X.509/ASN.1 encoding, signatures, validity periods and chain validation (the direct oracle checks x509.Verify against the store's active root on every issued leaf: 'chains to the currently active root' is checked, not proved); rate limiting; external CA providers (Vault, AWS); secondary datacenters",
+        "the auto-config entry point is the real AutoConfig.InitialConfiguration with a stand-in authorizer (a JWT that validates for the node): parseAutoConfigCSR is the real one, the node-name comparison of jwtAuthorizer.Authorize is copied in the hook file",
         "community edition build (no partitions/namespaces); strings.ToLower modelled on ASCII (hosts and cluster IDs)",
     ]
     assumptions = ["authorizer arbitrary", "crypto/x509 and net/url as oracles for certificate encoding and URL syntax outside the path"]
@@ -215,7 +216,7 @@ def run(ctx):
     per = 120
     shards = [coq_cases[i:i + per] for i in range(0, len(coq_cases), per)]
     texts = [shard_text(s, tab if k == 0 else None) for k, s in enumerate(shards)]
-    res = vlib.coq_run_shards(PROP, texts, jobs=6)
+    res = vlib.coq_run_shards(PROP, texts, jobs=4, timeout=3000)
     mism = []
     tab_broken = False
     for s, (okk, idx, raw) in zip(shards, res):
@@ -321,6 +322,7 @@ def run(ctx):
         "extended_search_runs": extra_runs,
         "known_finding_hits": dict(known_hits),
         "sign_outcomes": dict(verdicts),
+        "sign_entry_points": dict(collections.Counter(c.get("entry", "authorize") for c in signs)),
         "issued_identity_kinds": dict(issued_kinds),
         "uri_kinds": dict(shapes),
         "uri_variation_labels": dict(labels),
